@@ -281,7 +281,7 @@ func hasField(st *types.Struct, name string) bool {
 func (fr *Frame) evalIndex(x, i *Val, ctx *evalCtx) *Val {
 	switch xt := x.typ.Underlying().(type) {
 	case *types.Slice:
-		l := &Loc{kind: locElem, ref: sArr(x.t), idx: app("+", sOff(x.t), i.t), root: fr.eng.elemRoot(xt.Elem()), typ: xt.Elem()}
+		l := &Loc{kind: locElem, ref: sArr(x.t), idx: app("IDX", sOff(x.t), i.t), root: fr.eng.elemRoot(xt.Elem()), typ: xt.Elem()}
 		if structOf(xt.Elem()) != nil {
 			return &Val{loc: l, typ: types.NewPointer(xt.Elem())}
 		}
@@ -320,6 +320,13 @@ func (fr *Frame) evalBinop(e *CExpr, ctx *evalCtx) *Val {
 	}
 	a := fr.eval1(e.Args[0], ctx)
 	b := fr.eval1(e.Args[1], ctx)
+	// struct elements / struct-valued fields are compared by value
+	if a.loc != nil && a.t == "" && structOf(a.loc.typ) != nil && !isSyncType(a.loc.typ) {
+		a = fr.load(a.loc)
+	}
+	if b.loc != nil && b.t == "" && structOf(b.loc.typ) != nil && !isSyncType(b.loc.typ) {
+		b = fr.load(b.loc)
+	}
 	switch op {
 	case "==", "!=":
 		var t string
@@ -494,7 +501,13 @@ func (fr *Frame) evalCall(e *CExpr, ctx *evalCtx) *Val {
 		c := *ctx
 		c.st = ctx.old
 		var out *Val
-		fr.withState(ctx.old, func() { out = fr.eval1(args[0], &c) })
+		fr.withState(ctx.old, func() {
+			out = fr.eval1(args[0], &c)
+			// a location must be read in the old state, not later
+			if out.loc != nil && out.t == "" && !isSyncType(out.loc.typ) {
+				out = fr.load(out.loc)
+			}
+		})
 		return out
 	case "len", "cap":
 		x := fr.eval1(args[0], ctx)
@@ -553,6 +566,16 @@ func (fr *Frame) evalCall(e *CExpr, ctx *evalCtx) *Val {
 			return boolVal(app(">", iVal(x.t), base.alloc))
 		}
 		return boolVal(app(">", fr.scalar(x), base.alloc))
+	case "sinceLoop": // allocated after the enclosing loop was entered
+		x := fr.eval1(args[0], ctx)
+		if ctx.loop == nil || ctx.loop.entryAlloc == "" {
+			efail("sinceLoop() outside a loop invariant")
+		}
+		switch x.sort {
+		case sSlc:
+			return boolVal(app(">", sArr(x.t), ctx.loop.entryAlloc))
+		}
+		return boolVal(app(">", fr.scalar(x), ctx.loop.entryAlloc))
 	case "typeIs":
 		x := fr.eval1(args[0], ctx)
 		if x.sort != sIfc || args[1].Kind == "" {
